@@ -60,14 +60,14 @@ NOT_OWNED = {"reuse-error-value", "error-value-free-running", "isolation-free-ru
 # reach probes that a full quick run always hits on a healthy set-up (see PROBE-ZERO)
 REQUIRED_PROBES = {
     "C05": ["encoding-checked", "acceptance-step-checked", "request-raised-mid-instruction", "write-watch-device-posts-NMI", "raised/forced", "acceptance-case-checked"],
-    "C06": ["accept/", "refused", "retired", "mode0-data-with-padding", "mode0-supplied-RET", "mode0-push-lands-on-interrupted-pc"],
+    "C06": ["accept/", "refused", "retired", "mode0-data-with-padding", "mode0-supplied-RET", "mode0-push-lands-on-interrupted-pc", "on-library-DumbMemory"],
     "C07": ["accepted/", "maskable-handler-left-through-RETN", "acceptance-word-straddles-ffff-0000", "run-driven/"],
     "C08": ["stopped-at-breakpoint", "stopped-at-HALT", "interrupt-accepted-during-run", "breakpoint-wins-over-HALT", "host-pokes-memory-between-calls", "raised/forced", "long-run-stop-after-thousands-of-steps"],
     "C09": ["interrupt@between-repetitions", "crash-restore@element-boundary", "on-library-DumbMemory", "cpu-object-used-before-on-another-memory", "no-io-device-attached"],
     "C10": ["crash-restore", "context-switch-at-bus-access", "type-twin/", "device-swap-mode-1", "free-running-world-under-race-detector", "worlds-without-io-device", "host-dma-pokes"],
     "C12": ["unsupported-opcode-consumed", "malformed-request@", "run-returned-halted", "callback-copies-cpu", "write-watch-device-posts-NMI", "hostile-worlds-running-concurrently"],
-    "C13": ["cancelled/", "watcher-held-in-Err-call-3", "run-calls-goroutine-accounted", "resumed-after-cancel", "runs-on-a-reused-cpu"],
-    "C18": ["breakpoint-after-call", "console-write-fault", "interrupt-inside-machine", "warning-path", "cancel-mid-run", "console-is-a-real-file", "second-program-step-driven", "machines-running-concurrently", "machine-with-default-console-and-logger"],
+    "C13": ["cancelled/", "watcher-held-in-Err-call-3", "run-calls-goroutine-accounted", "resumed-after-cancel", "runs-on-a-reused-cpu", "run-on-a-copy-taken-during-run"],
+    "C18": ["breakpoint-after-call", "console-write-fault", "interrupt-inside-machine", "warning-path", "cancel-mid-run", "console-is-a-real-file", "second-program-step-driven", "machines-running-concurrently", "machine-with-default-console-and-logger", "host-continues-on-a-copy-of-the-cpu", "console-is-a-func-adapter"],
 }
 
 RULES = {}   # filled from rules.json (text per property: how cases are generated, what is non-trivial)
@@ -149,17 +149,35 @@ def run_workers(binary, prop, tier, seed, nshards, count, budget, extra_env=None
             e["VERIF_JOURNAL"] = out + ".journal"
         if extra_env:
             e.update(extra_env)
+        # output goes to a file, not a pipe: a library that writes a lot to the standard streams must not be
+        # able to block inside a Step because nobody is draining the pipe (that would look like a hang)
+        lf = open(out + ".log", "w")
         p = subprocess.Popen([binary, "-test.run", "^TestWorker$", "-test.timeout", "0", "-test.count", "1"], env=e, cwd=tmpdir,
-                             stdout=subprocess.PIPE, stderr=subprocess.STDOUT, text=True)
+                             stdout=lf, stderr=subprocess.STDOUT)
+        lf.close()
         procs.append((sh, p, out))
     results, trouble, races = [], [], []
     deadline = time.time() + budget * 3 + 300
     for sh, p, out in procs:
+        def output():
+            with open(out + ".log", errors="replace") as f:
+                f.seek(0, 2)
+                n = f.tell()
+                if n <= 4_000_000:
+                    f.seek(0)
+                    return f.read()
+                # very long output (a chatty library): head and tail are what matters
+                f.seek(0)
+                head = f.read(2_000_000)
+                f.seek(n - 2_000_000)
+                return head + "\n...\n" + f.read()
         try:
-            so, _ = p.communicate(timeout=max(1, deadline - time.time()))
+            p.wait(timeout=max(1, deadline - time.time()))
+            so = output()
         except subprocess.TimeoutExpired:
             p.kill()
-            so, _ = p.communicate()
+            p.wait()
+            so = output()
             trouble.append("worker %d: watchdog expired\n%s" % (sh, so[-2000:]))
             continue
         if "WARNING: DATA RACE" in so:
